@@ -296,16 +296,23 @@ func (d *dump) key() string {
 //  3. among the remaining ones (cycles) the entry whose cell names X as its
 //     home package is the definition, then 2 again; what still remains are
 //     definitions.
+// A cell held by its home package H and, unexplained, by another package Y is
+// ambiguous: either Y had the definition and H redefined it through inheritance
+// (slip then renames the cell's home), or H has it and Y kept a copy that no
+// use edge explains any more. abstract(false) reads it the first way,
+// abstract(true) the second way (Y's copy is then not judged); the oracle
+// reports only what is wrong under both readings.
 // Function entries that slip's own lookup rule hides from X (not exported and
 // belonging elsewhere) are kept as hidden: only X::n reaches them.
 // aliased lists (package, kind, name) triples whose cell is a "definition" of
 // more than one package, is hidden, or is an orphaned copy of a cell its home
 // package no longer holds (all possible only after an earlier defect): the
 // oracle does not judge those slots (degraded mode, S9).
-func (d *dump) abstract() (g *graph, aliased map[string]bool) {
+func (d *dump) abstract(homeWins bool) (g *graph, aliased map[string]bool) {
 	g = newGraph(d.cfg)
 	aliased = map[string]bool{}
 	owners := map[string][]int{}
+	var ambiguous []string
 	for x, p := range d.p {
 		g.p[x].uses = append([]int(nil), p.uses...)
 	}
@@ -355,8 +362,18 @@ func (d *dump) abstract() (g *graph, aliased map[string]bool) {
 					}
 				}
 			}
+			if homeWins {
+				// second reading of an ambiguous table: the package a cell
+				// names as its home has the definition whatever else explains it
+				for x := range d.p {
+					if present[x] && ents[x].home == x {
+						state[x] = own
+					}
+				}
+				propagate()
+			}
 			for x := range d.p {
-				if present[x] && len(explainers(x)) == 0 {
+				if present[x] && state[x] == unknown && len(explainers(x)) == 0 {
 					state[x] = own
 				}
 			}
@@ -381,14 +398,29 @@ func (d *dump) abstract() (g *graph, aliased map[string]bool) {
 				if kind == 'f' && !e.exp && e.home != x {
 					df.hidden = true
 				}
-				if h := e.home; 0 <= h && h != x && (!present[h] || ents[h].cell != e.cell) {
-					df.stale = true
+				if h := e.home; 0 <= h && h != x {
+					if !present[h] || ents[h].cell != e.cell {
+						df.stale = true
+					} else if homeWins {
+						df.stale = true // the home package has the definition: this is a left-over copy
+					} else if reaches(d, x, h) {
+						// x holds, as a definition, a cell whose home package h
+						// still holds it, and x (indirectly) uses h: a copy that
+						// travelled along a use chain which no longer explains
+						// it. Whether x or h "has" the definition is not
+						// decidable from the tables: not judged.
+						df.stale = true
+						ambiguous = append(ambiguous, fmt.Sprintf("%d%c%s", h, kind, n))
+					}
 				}
 				g.tab(x, kind)[n] = df
 				ck := fmt.Sprintf("%c%d", kind, e.cell)
 				owners[ck] = append(owners[ck], x)
 			}
 		}
+	}
+	for _, k := range ambiguous {
+		aliased[k] = true
 	}
 	for x := range d.p {
 		for _, kind := range []byte{'v', 'f'} {
@@ -400,6 +432,26 @@ func (d *dump) abstract() (g *graph, aliased map[string]bool) {
 		}
 	}
 	return
+}
+
+// reaches: does package x use package h, directly or through other packages?
+func reaches(d *dump, x, h int) bool {
+	seen := map[int]bool{x: true}
+	queue := []int{x}
+	for 0 < len(queue) {
+		q := queue[0]
+		queue = queue[1:]
+		for _, u := range d.p[q].uses {
+			if u == h {
+				return true
+			}
+			if !seen[u] {
+				seen[u] = true
+				queue = append(queue, u)
+			}
+		}
+	}
+	return false
 }
 
 // ---------------------------------------------------------------------------
